@@ -1056,7 +1056,92 @@ func ruleVersPypiGate(p *Prog, r *Report) {
 	if n == 0 {
 		r.Und("R-VERS-GATE", key, p.FnPos(gate), "no textual predicate on the probe's String() found in the gate")
 	}
-	r.Floor("R-VERS-GATE", 1)
+	// the constraints side of the gate: "some constraint names a pre-release" asks every constraint.
+	// In each loop over a list of strings in the gate's call tree that calls a text predicate, every
+	// path through an iteration passes the predicate call: a test of the constraint's comparator (or
+	// anything else) in front of it exempts some constraints from the question.
+	k2 := "vers pypi: the pre-release gate asks every constraint"
+	loopsSeen := 0
+	for _, fn := range p.RepoReachable(gate) {
+		if fn.Pkg != gate.Pkg || fn.Blocks == nil {
+			continue
+		}
+		for _, l := range findLoops(fn) {
+			var predBlocks []*ssa.BasicBlock
+			for b := range l.body {
+				for _, ins := range b.Instrs {
+					c, ok := ins.(*ssa.Call)
+					if !ok {
+						continue
+					}
+					f := c.Call.StaticCallee()
+					if f == nil || !p.IsRepoFn(f) || len(f.Params) != 1 || !isStringType(f.Params[0].Type()) || f.Signature.Results().Len() != 1 || !isBoolType(f.Signature.Results().At(0).Type()) {
+						continue
+					}
+					predBlocks = append(predBlocks, b)
+				}
+			}
+			// a loop over a []string parameter
+			overStrings := false
+			for _, ins := range l.header.Instrs {
+				if ph, ok := ins.(*ssa.Phi); ok && isIntType(ph.Type()) {
+					_ = ph
+				}
+			}
+			for _, prm := range fn.Params {
+				if isStringSlice(prm.Type()) {
+					overStrings = true
+				}
+			}
+			if len(predBlocks) == 0 || !overStrings {
+				continue
+			}
+			loopsSeen++
+			isPred := map[*ssa.BasicBlock]bool{}
+			for _, b := range predBlocks {
+				isPred[b] = true
+			}
+			// can an iteration get from the header's body successor back to the header (or out of the
+			// loop by falling through) without passing a predicate block?
+			var entry *ssa.BasicBlock
+			for _, sc := range l.header.Succs {
+				if l.body[sc] && sc != l.header {
+					entry = sc
+				}
+			}
+			bypass := false
+			seen := map[*ssa.BasicBlock]bool{}
+			var walk func(b *ssa.BasicBlock)
+			walk = func(b *ssa.BasicBlock) {
+				if bypass || seen[b] || isPred[b] {
+					return
+				}
+				seen[b] = true
+				for _, sc := range b.Succs {
+					if sc == l.header {
+						bypass = true
+						return
+					}
+					if l.body[sc] {
+						walk(sc)
+					}
+				}
+			}
+			if entry != nil {
+				walk(entry)
+			}
+			kk := fmt.Sprintf("%s (%s)", k2, fn.Name())
+			if bypass {
+				r.Bad("R-VERS-GATE", kk, p.FnPos(fn), "an iteration over the constraints can go on to the next one without the text predicate having been applied: constraints with some comparators (or of some shape) are not asked whether they name a pre-release")
+			} else {
+				r.Ok("R-VERS-GATE", kk, p.FnPos(fn), "every iteration over the constraints applies the text predicate before it goes on")
+			}
+		}
+	}
+	if loopsSeen == 0 {
+		r.Und("R-VERS-GATE", k2, p.FnPos(gate), "no loop over the constraints that applies a text predicate was found in the gate")
+	}
+	r.Floor("R-VERS-GATE", 2)
 }
 
 // ---- R-VERS-PURE: VERS evaluation keeps no state between calls ------------------------------------------------
